@@ -4,6 +4,7 @@ import (
 	"go/ast"
 	"go/parser"
 	"go/token"
+	"os"
 	"path"
 	"regexp"
 	"strings"
@@ -155,6 +156,33 @@ func splitRunPattern(s string) [][]string {
 	}
 
 	return append(alternatives, append(current, s))
+}
+
+// fileOfSkippedTests reports whether an unused snapshot file holds only snapshots of tests
+// that did not run: they (or a parent) called snaps.Skip*, or they were filtered out by -run.
+// Such a file is not obsolete.
+func fileOfSkippedTests(snapPath, runOnly string) bool {
+	f, err := os.Open(snapPath)
+	if err != nil {
+		return false
+	}
+	defer f.Close()
+
+	found := false
+	s := snapshotScanner(f)
+	for s.Scan() {
+		testID, ok := getTestID(s.Bytes())
+		if !ok {
+			continue
+		}
+
+		if !testSkipped(testID, runOnly) {
+			return false
+		}
+		found = true
+	}
+
+	return found
 }
 
 func isFileSkipped(dir, filename, runOnly string) bool {
